@@ -827,15 +827,19 @@ func faithfulMapCopy(s Summary, dst, src *Term) bool {
 		}
 		copied[k.Name] = true
 	}
-	// every iteration over src that the path ran through has its update
-	n := 0
+	// every iteration over src that the path ran through has its update; and the path does range over src at all (a fresh
+	// empty map is not a copy)
+	n, ranged := 0, false
 	for _, ev := range s.Events {
-		if ev.Kind == "iter" && ev.Recv != nil && ev.Recv.Kind == "rangeiter" && len(ev.Recv.Args) > 0 && ev.Recv.Args[0] == src {
-			if !copied[fmt.Sprint(n)] {
-				return false
+		if (ev.Kind == "iter" || ev.Kind == "iterdone") && ev.Recv != nil && ev.Recv.Kind == "rangeiter" && len(ev.Recv.Args) > 0 && ev.Recv.Args[0] == src {
+			ranged = true
+			if ev.Kind == "iter" {
+				if !copied[fmt.Sprint(n)] {
+					return false
+				}
+				n++
 			}
-			n++
 		}
 	}
-	return true
+	return ranged
 }
